@@ -43,6 +43,7 @@ pub fn scenarios(thorough: bool) -> Vec<Sc> {
         child: false,
         pg_event: false,
         busy_sup: false,
+        sup_drains: false,
     };
     for kind in [Kind::Send, Kind::Local] {
         let mut a = base(kind, Variant::Linked, Site::Handle, P::Awaits, Closer::Stop(Some("bye")));
